@@ -58,6 +58,11 @@ func New(fun string, matcher matcher.Matcher, outFmt string, cache bool, interva
 	if interval == 0 {
 		return nil, errors.New("aggregation interval must be > 0")
 	}
+	// the interval becomes a time.Duration (nanoseconds). refuse values that overflow it:
+	// e.g. 2^55 seconds wraps to a period of 0 and the aligned ticker would divide by zero
+	if uint64(interval) > uint64(1<<63-1)/uint64(time.Second) {
+		return nil, errors.New("aggregation interval is too large")
+	}
 	ticker := clock.AlignedTick(time.Duration(interval)*time.Second, time.Duration(wait)*time.Second, 2)
 	return NewMocked(fun, matcher, outFmt, cache, interval, wait, dropRaw, out, 2000, time.Now, ticker)
 }
